@@ -29,31 +29,31 @@ BITSET_LOOPS = ','.join('_ZN6asmjit5v1_2111ArenaBitSet7_resizeERNS0_5ArenaEmmb.%
 B_ONE = 'one 128-byte heap block, 8-aligned cursor symbolic, block-size shift 7'
 B_CHAIN = 'chain of 1..3 heap blocks (payload 128/64/256), current block and 8-aligned cursor symbolic, block-size shift 7..8'
 HARNESSES = [
-    Harness('arena', 'h_arena_slot_index', unwind=4, bounds='all 2^64 sizes', mem_gb=2, timeout=300),
-    Harness('arena', 'h_arena_oneshot', unwind=5, bounds=B_CHAIN + '; request 0..504, 512..1016 or one of the 6 aligned sizes that overflow the block-size computation', mem_gb=4, timeout=600),
-    Harness('arena', 'h_arena_oneshot_kf_D1', unwind=5, known='D1', bounds='same as h_arena_oneshot, restricted to: a retained block is skipped and a later one fits or the request overflows', mem_gb=4, timeout=600),
+    Harness('arena', 'h_arena_slot_index', unwind=4, bounds='all 2^64 sizes', mem_gb=1, timeout=300),
+    Harness('arena', 'h_arena_oneshot', unwind=5, bounds=B_CHAIN + '; request 0..504, 512..1016 or one of the 6 aligned sizes that overflow the block-size computation', mem_gb=1, timeout=600),
+    Harness('arena', 'h_arena_oneshot_kf_D1', unwind=5, known='D1', bounds='same as h_arena_oneshot, restricted to: a retained block is skipped and a later one fits or the request overflows', mem_gb=1, timeout=600),
     Harness('arena', 'h_arena_reusable_alloc', unwind=10, tiers=('thorough',), bounds=B_ONE + '; 0..2 released chunks of 16/32/64 bytes; 0..2 dynamic blocks; request 1..2048, 2049..2304, SIZE_MAX-63..SIZE_MAX', mem_gb=6, timeout=900),
     Harness('arena', 'h_arena_reusable_alloc_q', unwind=10, unwindset=leftover_loops(3), bounds='as h_arena_reusable_alloc with less than 32 bytes left in the block (at most one leftover chunk)', mem_gb=4, timeout=600),
     Harness('arena', 'h_arena_reusable_free', unwind=9, unwindset=arena_loops(4), bounds=B_ONE + '; 0..2 released chunks; 0..2 dynamic blocks; releases a 16/32/64-byte chunk with any size of its class, or either dynamic block', mem_gb=4, timeout=600),
     Harness('arena', 'h_arena_reset', unwind=9, bounds=B_CHAIN + ' or no managed block; 0..2 released chunks; 0..2 dynamic blocks; soft or hard', mem_gb=4, timeout=600),
-    Harness('arena', 'h_arena_reset_kf_D18A', unwind=9, known='D18A', bounds='no managed block, 1..2 dynamic blocks, hard reset', mem_gb=4, timeout=600),
-    Harness('arena', 'h_arena_static', unwind=5, unwindset=arena_loops(4), bounds='static 128-byte first block: requests {0,8,56,112,120} then {8,64,104}, reset soft or hard, one more request of 56', mem_gb=4, timeout=600),
-    Harness('arena', 'h_arena_dup', unwind=26, unwindset=arena_loops(3), bounds='one 128-byte block with 24 bytes left; 24 symbolic bytes, (size, terminator) in {0,1,7,8,16,23,24} x {no,yes} (11 combinations), null source', mem_gb=4, timeout=600),
-    Harness('arena', 'h_arena_string', unwind=27, unwindset=arena_loops(3), bounds='one 128-byte block with 24 bytes left; ArenaString<16>, 24 symbolic characters, size in {0,5,11,12,24} explicit or {0,5,11,12} by strlen', mem_gb=4, timeout=600),
-    Harness('arena', 'h_arena_pool', unwind=5, bounds=B_ONE + '; 0..2 pooled items; alloc or release+alloc', mem_gb=4, timeout=600),
-    Harness('nodes', 'h_list_step', unwind=8, bounds='any list of 0..4 of 4 nodes in any order; one of append/prepend/insert_after/insert_before/unlink/pop_first/pop at any position, then swap', mem_gb=3, timeout=600),
+    Harness('arena', 'h_arena_reset_kf_D18A', unwind=9, known='D18A', bounds='no managed block, 1..2 dynamic blocks, hard reset', mem_gb=2, timeout=600),
+    Harness('arena', 'h_arena_static', unwind=5, unwindset=arena_loops(4), bounds='static 128-byte first block: requests {0,8,56,112,120} then {8,64,104}, reset soft or hard, one more request of 56', mem_gb=2, timeout=600),
+    Harness('arena', 'h_arena_dup', unwind=26, unwindset=arena_loops(3), bounds='one 128-byte block with 24 bytes left; 24 symbolic bytes, (size, terminator) in {0,1,7,8,16,23,24} x {no,yes} (11 combinations), null source', mem_gb=1, timeout=600),
+    Harness('arena', 'h_arena_string', unwind=27, unwindset=arena_loops(3), bounds='one 128-byte block with 24 bytes left; ArenaString<16>, 24 symbolic characters, size in {0,5,11,12,24} explicit or {0,5,11,12} by strlen', mem_gb=1, timeout=600),
+    Harness('arena', 'h_arena_pool', unwind=5, bounds=B_ONE + '; 0..2 pooled items; alloc or release+alloc', mem_gb=1, timeout=600),
+    Harness('nodes', 'h_list_step', unwind=8, bounds='any list of 0..4 of 4 nodes in any order; one of append/prepend/insert_after/insert_before/unlink/pop_first/pop at any position, then swap', mem_gb=2, timeout=600),
     Harness('nodes', 'h_tree_insert_d2', unwind=17, unwindset=tree_loops(5), rotate=(0, 2), bounds='any valid red-black tree of 0..3 nodes (height <= 2), symbolic distinct 32-bit keys and colours; insert of any new key, then lookup of any key (quick tier: when VERIF_SEED is even)', mem_gb=5, timeout=900),
     Harness('nodes', 'h_tree_remove_d2', unwind=17, unwindset=tree_loops(5), rotate=(1, 2), bounds='any valid red-black tree of 1..3 nodes (height <= 2); remove of any node (quick tier: when VERIF_SEED is odd)', mem_gb=7, timeout=900),
     Harness('nodes', 'h_tree_insert_d3', unwind=33, unwindset=tree_loops(6), tiers=('thorough',), bounds='any valid red-black tree of 0..5 nodes (height <= 3); insert of any new key, then lookup of any key', mem_gb=8, timeout=3000),
-    Harness('nodes', 'h_tree_remove_d3', unwind=33, unwindset=tree_loops(6), tiers=('thorough',), bounds='any valid red-black tree of 1..5 nodes (height <= 3); remove of any node', mem_gb=8, timeout=3000),
+    # h_tree_remove_d3 (remove from trees of 1..5 nodes): out of memory at the 8 GB cap after 37 s - dropped, see OUTSIDE
 ] + [
-    Harness('nodes', 'h_hash_mod_%d' % k, unwind=4, bounds='table entries %d..%d: all hash codes below 2^16 through the real _calc_mod + exactness condition of reciprocal division for 32-bit codes on the constants' % (8 * k, min(8 * k + 7, 128)), mem_gb=3, timeout=900,
+    Harness('nodes', 'h_hash_mod_%d' % k, unwind=4, bounds='table entries %d..%d: all hash codes below 2^16 through the real _calc_mod + exactness condition of reciprocal division for 32-bit codes on the constants' % (8 * k, min(8 * k + 7, 128)), mem_gb=1, timeout=900,
             tiers=('quick', 'thorough') if k == 1 else ('thorough',)) for k in range(17)
 ] + [
 ] + [
     # measured: *_insert/remove/rehash on the embedded table 2-30 s; p2/p11 remove 3-24 s; p11_insert 17 s; p2_rehash 270 s; the 2-node
     # variants p2_insert_n2 255 s, p2_rehash_n2 60 s. No verdict in 900 s (dropped, see OUTSIDE): p2_insert and p11_rehash with 4 nodes, p11_rehash with 2.
-    Harness('nodes', 'h_hash_%s_%s' % (tab, op), unwind=13, unwindset=hash_loops(nb), mem_gb=5, timeout=1800, tiers=tiers,
+    Harness('nodes', 'h_hash_%s_%s' % (tab, op), unwind=13, unwindset=hash_loops(nb), mem_gb=2, timeout=1800, tiers=tiers,
             bounds=B_HASH % pre + '; ' + what)
     for tab, nb, pre in (('embedded', 1, 'embedded single bucket with 0..1'), ('p2', 2, '2 buckets with 0..4'), ('p11', 11, '11 buckets with 0..4'))
     for op, what in (('insert', 'insert of a 5th node (rehash to 29 buckets when the grow threshold is passed)'), ('remove', 'remove of any of the 5 nodes (member or not)'),
@@ -61,43 +61,43 @@ HARNESSES = [
     for tiers in [('thorough',) if (tab, op) == ('p2', 'rehash') else ('quick', 'thorough')]
     if (tab, op) not in (('p2', 'insert'), ('p11', 'rehash'))
 ] + [
-    Harness('nodes', 'h_hash_%s_n2' % nm, unwind=13, unwindset=hash_loops(nb), mem_gb=5, timeout=1800, tiers=('thorough',), bounds=B_HASH % pre + '; ' + what)
+    Harness('nodes', 'h_hash_%s_n2' % nm, unwind=13, unwindset=hash_loops(nb), mem_gb=2, timeout=1800, tiers=('thorough',), bounds=B_HASH % pre + '; ' + what)
     for nm, nb, pre, what in (('p2_insert', 2, '2 buckets with 0..2', 'insert (rehash to 29 buckets)'), ('p2_rehash', 2, '2 buckets with 0..2', 'rehash to 11 buckets'))
 ] + [
-    Harness('vec', 'h_vec_u32', unwind=10, bounds='ArenaVector<uint32_t>: size/index pairs (0,0) (0,2) (1,0) (1,1) (3,0) (3,1) (3,3) (4,2) (4,4), spare capacity 0 or 2, symbolic elements; one of append/prepend/insert/remove_at/pop/truncate/clear/resize_fit/resize_grow/reserve/swap/release', mem_gb=4, timeout=900),
-    Harness('vec', 'h_vec_tri', unwind=10, bounds='ArenaVector<12-byte struct>: same as h_vec_u32', mem_gb=4, timeout=900),
-    Harness('vec', 'h_vec_huge_u32', unwind=4, bounds='reserve_fit/reserve_grow/reserve_additional with any 64-bit item count > 2, arena failing or granting', mem_gb=4, timeout=900),
-    Harness('vec', 'h_vec_huge_tri', unwind=4, bounds='same for the 12-byte item', mem_gb=4, timeout=900),
-    Harness('vec', 'h_vec_huge_kf_D18C', unwind=4, known='D18C', bounds='12-byte item, restricted to: the arena grants a block of 2^32 items or more', mem_gb=4, timeout=900),
-    Harness('bits', 'h_bitset_bits', unwind=66, unwindset='memset.0:130', bounds='any bit set of size 0..128 (two words, symbolic content); bit_at/set_bit/add_bit/clear_bit/xor_bit at any index, append within capacity, truncate, clear', mem_gb=4, timeout=900),
-    Harness('bits', 'h_bitset_ranges', unwind=66, bounds='any bit set of size 0..128; clear_all/fill_all/clear_bits/fill_bits over any range, iteration over set bits', mem_gb=4, timeout=900),
-    Harness('bits', 'h_bitset_combine', unwind=66, unwindset='memset.0:130', bounds='two bit sets of sizes 0..128; and_/or_/and_not/equals/copy_from', mem_gb=4, timeout=900),
-    Harness('bits', 'h_bitset_resize', unwind=66, unwindset=BITSET_LOOPS + ',memset.0:130', bounds='any bit set of size 0..128 with capacity 64 or 128; resize to 0..192 with either value, or growing append', mem_gb=4, timeout=900),
-    Harness('bits', 'h_bitset_resize_kf_D18B', unwind=66, unwindset=BITSET_LOOPS + ',memset.0:130', known='D18B', bounds='resize growing from a size that is not a multiple of 64', mem_gb=4, timeout=900),
-    Harness('bits', 'h_bitvec_ops', unwind=194, bounds='3 symbolic words; bit_vector_fill/clear over any range, index_of from any start', mem_gb=4, timeout=900),
-    Harness('bits', 'h_bitvec_iter_init', unwind=66, bounds='3 symbolic words, any start 0..192: BitVectorIterator::init establishes remaining = set bits from start', mem_gb=4, timeout=900),
-    Harness('bits', 'h_bitvec_iter_step', unwind=66, bounds='3 symbolic words, any valid iterator state with something remaining: one next()', mem_gb=4, timeout=900),
-    Harness('bits', 'h_bitword_iter', unwind=66, bounds='all non-zero 64-bit / 32-bit words: one next(); BitVectorOpIterator<AndNot> over 2x2 symbolic words from any start: init + first next()', mem_gb=4, timeout=900),
+    Harness('vec', 'h_vec_u32', unwind=10, bounds='ArenaVector<uint32_t>: size/index pairs (0,0) (0,2) (1,0) (1,1) (3,0) (3,1) (3,3) (4,2) (4,4), spare capacity 0 or 2, symbolic elements; one of append/prepend/insert/remove_at/pop/truncate/clear/resize_fit/resize_grow/reserve/swap/release', mem_gb=2, timeout=900),
+    Harness('vec', 'h_vec_tri', unwind=10, bounds='ArenaVector<12-byte struct>: same as h_vec_u32', mem_gb=2, timeout=900),
+    Harness('vec', 'h_vec_huge_u32', unwind=4, bounds='reserve_fit/reserve_grow/reserve_additional with any 64-bit item count > 2, arena failing or granting', mem_gb=1, timeout=900),
+    Harness('vec', 'h_vec_huge_tri', unwind=4, bounds='same for the 12-byte item', mem_gb=1, timeout=900),
+    Harness('vec', 'h_vec_huge_kf_D18C', unwind=4, known='D18C', bounds='12-byte item, restricted to: the arena grants a block of 2^32 items or more', mem_gb=1, timeout=900),
+    Harness('bits', 'h_bitset_bits', unwind=66, unwindset='memset.0:130', bounds='any bit set of size 0..128 (two words, symbolic content); bit_at/set_bit/add_bit/clear_bit/xor_bit at any index, append within capacity, truncate, clear', mem_gb=2, timeout=900),
+    Harness('bits', 'h_bitset_ranges', unwind=66, bounds='any bit set of size 0..128; clear_all/fill_all/clear_bits/fill_bits over any range, iteration over set bits', mem_gb=1, timeout=900),
+    Harness('bits', 'h_bitset_combine', unwind=66, unwindset='memset.0:130', bounds='two bit sets of sizes 0..128; and_/or_/and_not/equals/copy_from', mem_gb=1, timeout=900),
+    Harness('bits', 'h_bitset_resize', unwind=66, unwindset=BITSET_LOOPS + ',memset.0:130', bounds='any bit set of size 0..128 with capacity 64 or 128; resize to 0..192 with either value, or growing append', mem_gb=1, timeout=900),
+    Harness('bits', 'h_bitset_resize_kf_D18B', unwind=66, unwindset=BITSET_LOOPS + ',memset.0:130', known='D18B', bounds='resize growing from a size that is not a multiple of 64', mem_gb=1, timeout=900),
+    Harness('bits', 'h_bitvec_ops', unwind=194, bounds='3 symbolic words; bit_vector_fill/clear over any range, index_of from any start', mem_gb=3, timeout=900),
+    Harness('bits', 'h_bitvec_iter_init', unwind=66, bounds='3 symbolic words, any start 0..192: BitVectorIterator::init establishes remaining = set bits from start', mem_gb=1, timeout=900),
+    Harness('bits', 'h_bitvec_iter_step', unwind=66, bounds='3 symbolic words, any valid iterator state with something remaining: one next()', mem_gb=1, timeout=900),
+    Harness('bits', 'h_bitword_iter', unwind=66, bounds='all non-zero 64-bit / 32-bit words: one next(); BitVectorOpIterator<AndNot> over 2x2 symbolic words from any start: init + first next()', mem_gb=1, timeout=900),
 ] + [
 ] + [
-    Harness('string_sso' if kind == 'small' else 'string', 'h_string_%s_%s' % (kind, grp), unwind=36, mem_gb=8 if kind == 'small' else 4, timeout=1800,
+    Harness('string_sso' if kind == 'small' else 'string', 'h_string_%s_%s' % (kind, grp), unwind=36, mem_gb=8 if kind == 'small' else 2, timeout=1800,
             tiers=('thorough',) if kind == 'small' else ('quick', 'thorough'), bounds=what + '; symbolic characters; one of ' + ops)
     for kind, what in (('small', 'embedded string (capacity 30), (length, n) in {(5,25),(5,26),(30,1)}'),
                        ('tmp', 'StringTmp<8> (external buffer, capacity 15), (length, n) in {(0,15),(0,16),(8,7),(8,8),(15,3)}'),
                        ('heap', 'heap string (capacity 15), (length, n) in {(0,15),(8,7),(8,8),(15,2)}'))
     for grp, ops in (('a', 'assign / append / append(char) / append_chars'), ('b', 'pad_end / truncate / clear / assign(char)'), ('c', 'assign_chars / assign(String) / reset'))
 ] + [
-    Harness('string', 'h_string_huge', unwind=8, bounds='prepare (append, assign) / append_chars / append_hex with every length the size arithmetic must refuse (>= SIZE_MAX - 16 MiB - 2; hex: >= SIZE_MAX/2 or /3)', mem_gb=3, timeout=600),
-    Harness('string', 'h_string_hex', unwind=48, bounds='append_hex of 0..5 symbolic bytes with and without separator onto 0..31 characters of a StringTmp<32>', mem_gb=4, timeout=900),
+    Harness('string', 'h_string_huge', unwind=8, bounds='prepare (append, assign) / append_chars / append_hex with every length the size arithmetic must refuse (>= SIZE_MAX - 16 MiB - 2; hex: >= SIZE_MAX/2 or /3)', mem_gb=1, timeout=600),
+    Harness('string', 'h_string_hex', unwind=48, bounds='append_hex of 0..5 symbolic bytes with and without separator onto 0..31 characters of a StringTmp<32>', mem_gb=1, timeout=900),
 ] + [
-    Harness('string', 'h_string_num_' + nm, unwind=u, mem_gb=6, timeout=3000, tiers=tiers, bounds=b)
+    Harness('string', 'h_string_num_' + nm, unwind=u, mem_gb=4, timeout=6000, tiers=tiers, bounds=b)
     for nm, u, tiers, b in (
         ('hex64', 66, ('quick', 'thorough'), 'append_uint base 16, all 2^64 values'),
         ('hex64_alt', 66, ('thorough',), 'append_int base 16, alternate form + show-sign, width 18, all 2^64 values'),
         ('oct32', 34, ('quick', 'thorough'), 'append_uint base 8, alternate form, all 2^32 values'),
         ('bin16', 34, ('thorough',), 'append_int base 2, show-space, all values -2^15..2^15-1'),
         ('dec16', 34, ('quick', 'thorough'), 'append_int base 10, all values -2^15..2^15-1'),
-        ('dec32', 34, ('thorough',), 'append_uint base 10, all 2^32 values (measured: 1343 s)'),
+        ('dec32', 34, ('thorough',), 'append_uint base 10, all 2^32 values (measured: 1343..2047 s)'),
         ('dec32_signed', 34, ('thorough',), 'append_int base 0 (=10), show-sign, width 12, all 32-bit signed values'),
         )
 ] + [
@@ -105,9 +105,11 @@ HARNESSES = [
 ]
 EXPLANATION = 'bounded symbolic execution (CBMC) of the real container code compiled from /repo; one operation from an arbitrary valid pre-state built in the harness, compared with an abstract model (plain arrays)'
 OUTSIDE = ['ArenaHash: insert into / rehash of tables with 2 and 11 buckets holding more than 2 nodes when the target has 29 buckets (no verdict from the SAT back end within 15 min); hash codes wider than 8 bits in the table harnesses (16 bits in h_hash_mod)',
-           'ArenaTree: trees of more than 5 nodes (quick: more than 3)',
+           'ArenaTree: insert into trees of more than 5 nodes, remove from trees of more than 3 nodes (remove on 1..5 nodes exhausts the 8 GB cap of one query)',
            'String: decimal formatting of values wider than 32 bits (the /10 digit loop: 32-bit values already take 22 min of SAT time); String::_op_format / vsnprintf paths']
 ASSUMPTIONS = ['malloc never fails (allocation failure is C15)',
+               'arena harnesses: pre-state blocks are heap objects of 64/128/256 payload bytes allocated by a C stub with malloc(sizeof(struct)) (typed for the solver) and the block-size shift is hand-set to 7..8, i.e. smaller than the 1 KiB minimum the constructor accepts - the code under test does not depend on the block size',
+               'h_hash_mod_*: codes >= 2^16 rely on the arithmetic lemma stated in h_nodes.cpp, whose condition is checked on every table constant',
                'vector / bit set harnesses: Arena::_alloc_reusable and _release_dynamic are harness stubs (one typed 512-byte pool, allocated size reported as the real arena does)',
                'bit set and embedded-string harnesses: memset (and for the bit sets memcpy/memmove) are byte loops for the solver (CBMC\'s built-in models lose writes of symbolic length into the middle of an object)',
                'hash harnesses: Arena::_alloc_reusable_zeroed is a harness stub returning a zeroed typed pool (the arena itself is checked by the h_arena_* harnesses)']
